@@ -300,6 +300,17 @@ def _into_from(eng, st, args, ci):
     name = eng.resolve_call(ci.func, len(args))
     if name is not None:
         return eng._inline(st, eng.get_fn(name), args)
+    # Into::into is the blanket impl over From::from: look for `impl From<A> for B` in the crate
+    from .engine import last_seg
+    src_ty, dst_ty = (a, b) if m.group(2) == 'Into' else (b, a)
+    cands = []
+    for r in eng.by_method.get('from', []):
+        if r['file'] and r['trait'] == 'From' and r['self_ty'] == last_seg(dst_ty):
+            fp = eng._first_param_ty(r)
+            if fp and last_seg(fp) == last_seg(src_ty):
+                cands.append(r)
+    if len(cands) == 1:
+        return eng._inline(st, eng.get_fn(cands[0]['name']), args)
     raise Unsupported('conversion %s' % ci.func)
 
 
@@ -988,3 +999,10 @@ def _owned_next(eng, st, args, ci):
         return NONE
     eng.write_ref(st, itref, Tup([cell, bv_const(p + 1, 'usize')], 'OwnedIter'))
     return some(seq.items[p])
+
+
+# ---------------------------------------------------------------- f32
+
+@intrinsic(r'^(std|core)::f32::<impl f32>::round$', 'f32::round = round to nearest, ties away from zero (IEEE roundToIntegral RNA)')
+def _f32_round(eng, st, args, ci):
+    return FP(z3.fpRoundToIntegral(z3.RNA(), args[0].e))
